@@ -363,6 +363,8 @@ def check_case(case):
 TYPE_TEXTS = [
     ("DateTime", "20200101"), ("DateTime", "20200101120000.123[-5:EST]"), ("DateTime", "19991231235959.999[+5.30:IST]"), ("DateTime", "20200230"),
     ("Time", "235959.500[-8:PST]"), ("Time", "250000"), ("Decimal", "1,50"), ("Decimal", "abc"), ("Integer", "42"), ("Bool", "Y"), ("Bool", "x"), ("String", "a&amp;b"),
+    ("DateTime", "20200101120000.000[+8:HKT]"), ("DateTime", "20200101120000.000[-:HKT]"), ("DateTime", "20200101120000.000[-3:HKT]"), ("DateTime", "20200101120000.000[-:EST]"),
+    ("DateTime", "20200101120000.000[+1:CET]"), ("DateTime", "20200101120000.000[-:CET]"), ("Time", "120000.000[+9:JST]"), ("Time", "120000.000[-:JST]"), ("DateTime", "20200101120000.000[0:EST]"),
 ]
 def _v1(charset, encoding="USASCII"):
     return ("OFXHEADER:100\r\nDATA:OFXSGML\r\nVERSION:102\r\nSECURITY:NONE\r\nENCODING:%s\r\nCHARSET:%s\r\nCOMPRESSION:NONE\r\nOLDFILEUID:NONE\r\nNEWFILEUID:NONE\r\n\r\n" % (encoding, charset)).encode("ascii")
